@@ -34,12 +34,104 @@ type actor struct {
 	done     bool
 	panicked string
 	mu       sync.Mutex
+	// statement-level scheduling (conc-inst): the yield the actor waits at
+	parkedAt string
+	resume   chan struct{}
 }
 
 type actors struct {
 	mu   sync.Mutex
 	list []*actor
 	log  func(string, ...any)
+	// conc-inst: the packages under test are instrumented with a yield
+	// before every statement; actors park there and the tape decides who
+	// takes the next step
+	inst     bool
+	t        *Tape
+	settling bool
+	steps    int
+	overrun  bool
+}
+
+// instActors maps goroutine ids to actors while a conc-inst run is active.
+var instActors sync.Map
+
+// parkActor is called from the yield hook for goroutines that are not tasks
+// of the bubble scheduler.
+func parkActor(point string) {
+	v, ok := instActors.Load(gid())
+	if !ok {
+		return
+	}
+	a := v.(*actor)
+	a.mu.Lock()
+	a.parkedAt = point
+	a.mu.Unlock()
+	<-a.resume
+}
+
+func (as *actors) parked() []*actor {
+	var out []*actor
+	as.mu.Lock()
+	for _, a := range as.list {
+		a.mu.Lock()
+		if !a.done && a.parkedAt != "" {
+			out = append(out, a)
+		}
+		a.mu.Unlock()
+	}
+	as.mu.Unlock()
+	sort.Slice(out, func(i, j int) bool { return out[i].name < out[j].name })
+	return out
+}
+
+func (a *actor) step() {
+	a.mu.Lock()
+	a.parkedAt = ""
+	a.mu.Unlock()
+	a.resume <- struct{}{}
+}
+
+const maxInstSteps = 20000
+
+// quiesce waits until every actor is done, blocked or parked at a yield. In
+// conc-inst it then lets the tape decide whether one of the parked actors
+// takes its next statement (most of the time) or stays where it is while the
+// schedule goes on; settle() runs everybody to the end.
+func (as *actors) quiesce() map[*actor]string {
+	for {
+		b := as.waitStable()
+		if !as.inst {
+			return b
+		}
+		ps := as.parked()
+		for _, a := range ps {
+			delete(b, a) // waiting for the scheduler, not blocked
+		}
+		if len(ps) == 0 {
+			return b
+		}
+		if as.steps >= maxInstSteps {
+			as.overrun = true
+			return b
+		}
+		if !as.settling && !as.t.Chance("ci-step", 850) {
+			return b
+		}
+		a := ps[as.t.Choose("ci-which", len(ps))]
+		as.steps++
+		if as.log != nil {
+			as.log("    step %s @%s", a.name, a.parkedAt)
+		}
+		a.step()
+	}
+}
+
+// settle lets every parked actor run until nobody is parked any more.
+func (as *actors) settle() map[*actor]string {
+	as.settling = true
+	defer func() { as.settling = false }()
+	return as.quiesce()
 }
 
 func (as *actors) spawn(name string, fn func()) *actor {
@@ -48,10 +140,15 @@ func (as *actors) spawn(name string, fn func()) *actor {
 	as.list = append(as.list, a)
 	as.mu.Unlock()
 	ready := make(chan struct{})
+	a.resume = make(chan struct{})
 	go func() {
 		a.mu.Lock()
 		a.gid = gid()
 		a.mu.Unlock()
+		if as.inst {
+			instActors.Store(a.gid, a)
+			defer instActors.Delete(a.gid)
+		}
 		close(ready)
 		defer func() {
 			r := recover()
@@ -92,7 +189,7 @@ func blockedState(st string) bool {
 
 // quiesce waits until every actor is done or blocked (stable over several
 // polls) and returns the blocked ones with their state.
-func (as *actors) quiesce() map[*actor]string {
+func (as *actors) waitStable() map[*actor]string {
 	stable := 0
 	var last string
 	var blocked map[*actor]string
@@ -170,7 +267,15 @@ func blockedKinds(b map[*actor]string) string {
 
 var storageUsed bool
 
-func runConcSim(env *RunEnv) {
+func runConcSim(env *RunEnv) { runConc(env, false) }
+
+// runConcInst is the same schedule generator in the binary whose copies of
+// utils/climit, utils/topics and snapshot/storage carry a yield before
+// every statement (build.sh inst): the tape also decides, statement by
+// statement, which goroutine inside those primitives moves next.
+func runConcInst(env *RunEnv) { runConc(env, true) }
+
+func runConc(env *RunEnv, inst bool) {
 	sim, t := env.Sim, env.Tape
 	var viol []Violation
 	violate := func(o, sig, msg string) {
@@ -179,7 +284,7 @@ func runConcSim(env *RunEnv) {
 			sim.Logf("VIOLATION C17/%s [%s]: %s", o, sig, msg)
 		}
 	}
-	as := &actors{}
+	as := &actors{inst: inst, t: t, log: sim.Logf}
 	nact := 0
 	scenario := t.Choose("cc-scenario", 3)
 	if scenario == 2 && storageUsed {
@@ -297,6 +402,7 @@ func runConcSim(env *RunEnv) {
 		}
 		// wind down: every subscription is closed, every pending Next/Handle
 		// is cancelled; afterwards nobody may be left blocked
+		as.settle() // (conc-inst: calls still on their way finish first)
 		for _, c := range cancels {
 			c()
 		}
@@ -311,13 +417,13 @@ func runConcSim(env *RunEnv) {
 					as.spawn(fmt.Sprintf("close#%d.final", k), func() { getSub(s).Close() })
 				}
 			}
-			as.quiesce()
+			as.settle()
 		}
 		// busy consumers come back to their channel: it must have been closed
 		for _, r := range releases {
 			close(r)
 		}
-		b := as.quiesce()
+		b := as.settle()
 		if len(b) > 0 {
 			violate("no-wedge", "blocked-after-close:"+blockedKinds(b), "after every subscription was closed and every pending receive cancelled these goroutines are still blocked: "+describeBlocked(b))
 		}
@@ -368,6 +474,7 @@ func runConcSim(env *RunEnv) {
 			}
 		}
 		// release everything: every waiting Acquire must come through
+		as.settle() // (conc-inst: calls still on their way finish first)
 		for round := 0; round < 50; round++ {
 			mu.Lock()
 			var hs []*climit.Token
@@ -385,9 +492,9 @@ func runConcSim(env *RunEnv) {
 				tk := tk
 				as.spawn(fmt.Sprintf("release-final#%d.%d", round, j), func() { tk.Release() })
 			}
-			as.quiesce()
+			as.settle()
 		}
-		b := as.quiesce()
+		b := as.settle()
 		if len(b) > 0 {
 			violate("no-wedge", "blocked-after-release:"+blockedKinds(b), "after every token was released these goroutines are still blocked: "+describeBlocked(b))
 		}
@@ -404,7 +511,7 @@ func runConcSim(env *RunEnv) {
 					mu.Unlock()
 				})
 			}
-			as.quiesce()
+			as.settle()
 			mu.Lock()
 			g := got
 			mu.Unlock()
@@ -416,7 +523,7 @@ func runConcSim(env *RunEnv) {
 				tk.Release()
 			}
 			mu.Unlock()
-			as.quiesce()
+			as.settle()
 		}
 	case 2: // global storage
 		storageUsed = true
@@ -448,7 +555,7 @@ func runConcSim(env *RunEnv) {
 		for i := 0; i < after; i++ {
 			getter(fmt.Sprintf("get-after#%d", i))
 		}
-		b := as.quiesce()
+		b := as.settle()
 		if len(b) > 0 {
 			violate("no-wedge", "blocked-after-set:"+blockedKinds(b), "after the global storage was set these callers are still blocked: "+describeBlocked(b))
 		}
@@ -464,11 +571,15 @@ func runConcSim(env *RunEnv) {
 		sig := "panic:" + regexp.MustCompile(`[^A-Za-z]+`).ReplaceAllString(strings.SplitN(ps[0], ": ", 2)[1], "_")
 		violate("no-panic", sig, "an actor panicked: "+strings.Join(ps, "; "))
 	}
+	if as.overrun && len(viol) == 0 {
+		env.Res.HarnessErr = fmt.Sprintf("conc-inst: more than %d statement steps in one run", maxInstSteps)
+	}
 	env.Res.Violations = viol
-	env.Res.Counts = map[string]int{"actors": nact, "scenario": scenario}
+	env.Res.Counts = map[string]int{"actors": nact, "scenario": scenario, "statement_steps": as.steps}
 	env.Res.Nontrivial = nact >= 2
 }
 
 func init() {
 	RegisterProfile(&Profile{Name: "conc-sim", Property: "C17", Run: runConcSim, NoBubble: true})
+	RegisterProfile(&Profile{Name: "conc-inst", Property: "C17", Run: runConcInst, NoBubble: true})
 }
